@@ -181,6 +181,16 @@ def finish(prop, tier, seed, tasks, results, wall, known, extra=None):
             rep = {"reproduced": None, "error": str(e)}
         native_search = {"label": "bounded", "script": search_script, "budget_s": budget, "scenarios_tried": rep.get("scenarios_tried"),
                          "reproduced": bool(rep.get("reproduced")), "violated_clause": rep.get("violated_clause")}
+        if stuck and not rep.get("reproduced") and prop == "C07":
+            # C07 also quantifies over direct breaker operations: histories on the breaker object itself (components.py, C07 oracle)
+            try:
+                rep_c = replay_native("components.py", payload, timeout=budget * 4 + 60)
+            except Exception as e:  # pragma: no cover
+                rep_c = {"reproduced": None, "error": str(e)}
+            native_search["breaker_histories"] = {"tried": rep_c.get("scenarios_tried"), "reproduced": bool(rep_c.get("reproduced"))}
+            if rep_c.get("reproduced"):
+                rep, search_script = rep_c, "components.py"
+                native_search.update(reproduced=True, violated_clause=rep_c.get("violated_clause"), script="components.py")
         if stuck and not rep.get("reproduced"):
             # last resort, only next to an undecided proof: the independent oracle programs stored with the seeded changes of this property
             try:
